@@ -44,6 +44,7 @@ var (
 	cR5           = simrt.RegisterCounter("op_lossless_or_error")
 	cR5Wild       = simrt.RegisterCounter("probe_r5_out_of_range_value")
 	cR5Rejected   = simrt.RegisterCounter("probe_r5_encoder_rejected")
+	cResolution   = simrt.RegisterCounter("op_wire_resolution_checks")
 	cPipes        = simrt.RegisterCounter("op_frame_roundtrip")
 	cPropInStream = simrt.RegisterCounter("probe_proprietary_in_stream")
 	cFull15       = simrt.RegisterCounter("probe_fopts_15_bytes")
@@ -93,6 +94,7 @@ func initialSize(up bool, cid byte) int {
 // ---- recorded history ----
 
 type regOp struct {
+	by       int
 	inv, ret int64
 	up       bool
 	cid      byte
@@ -129,9 +131,10 @@ type decOp struct {
 }
 
 type history struct {
-	regs []regOp
-	gets [][]getOp
-	decs [][]decOp
+	regs   []regOp   // merged (by return stamp) before checking
+	regsBy [][]regOp // per operator task
+	gets   [][]getOp
+	decs   [][]decOp
 }
 
 func build(w *sim.World) {
@@ -142,7 +145,15 @@ func build(w *sim.World) {
 	opSeed := simrt.Raw()
 	w.Notef("W-REG: %d codec tasks, %d registrations", nCodec, nRegs)
 
-	w.Spawn("operator", func() { operator(h, nRegs, opSeed) })
+	// one or two operators; they register disjoint CID sets (even / odd CIDs),
+	// so that the per-CID order of registrations stays unambiguous for R2
+	nOper := 1 + simrt.Choose(2)
+	h.regsBy = make([][]regOp, nOper)
+	for k := 0; k < nOper; k++ {
+		k := k
+		sub := opSeed + uint64(k)*0x9e3779b97f4a7c15
+		w.Spawn(fmt.Sprintf("operator%d", k), func() { operator(h, k, nOper, nRegs, sub) })
+	}
 	for t := 0; t < nCodec; t++ {
 		t := t
 		n := 3 + simrt.Choose(12)
@@ -152,7 +163,7 @@ func build(w *sim.World) {
 	w.Finish = append(w.Finish, func() { check(h) })
 }
 
-func operator(h *history, n int, sub uint64) {
+func operator(h *history, me, nOper, n int, sub uint64) {
 	r := sim.NewRand(sub)
 	for i := 0; i < n; i++ {
 		up := r.Intn(2) == 0
@@ -165,13 +176,16 @@ func operator(h *history, n int, sub uint64) {
 		default:
 			cid = byte(r.Intn(128))
 		}
+		if nOper > 1 && cid >= 0x80 {
+			cid = cid&^1 | byte(me) // operator 0: even CIDs, operator 1: odd CIDs
+		}
 		size := 1 + r.Intn(8)
 		cur := modelGet(up, cid)
 		if cid >= 0x80 && cur < 0 && r.Intn(8) == 0 {
 			size = 0 // documented no-op on an unregistered CID
 		}
 		simrt.Seam(1)
-		op := regOp{up: up, cid: cid, size: size}
+		op := regOp{by: me, up: up, cid: cid, size: size}
 		op.inv = simrt.Tick()
 		err := lorawan.RegisterProprietaryMACCommand(up, lorawan.CID(cid), size)
 		op.ret = simrt.Tick()
@@ -189,7 +203,7 @@ func operator(h *history, n int, sub uint64) {
 				modelSet(up, cid, size)
 			}
 		}
-		h.regs = append(h.regs, op)
+		h.regsBy[me] = append(h.regsBy[me], op)
 		simrt.Trace(evReg, uint64(cid)|uint64(dirIdx(up))<<8, uint64(size))
 	}
 }
@@ -288,7 +302,11 @@ func codec(h *history, id, n int, sub uint64) {
 		case k < 8:
 			getSize(h, id, r, up)
 		default:
-			losslessOrError(r, up)
+			if r.Intn(6) == 0 {
+				resolution(r)
+			} else {
+				losslessOrError(r, up)
+			}
 		}
 	}
 }
@@ -445,6 +463,43 @@ func getSize(h *history, id int, r *sim.Rand, up bool) {
 	simrt.Trace(evGet, uint64(cid), uint64(n))
 }
 
+// resolution is the "to wire resolution" clause of R5 for the one payload
+// whose Go type is finer than the wire: a DeviceTimeAns duration with
+// arbitrary nanoseconds must come back within one 1/256 s step.
+func resolution(r *sim.Rand) {
+	sec := int64(r.Intn(1 << 31))
+	var ns int64
+	switch r.Intn(4) {
+	case 0:
+		ns = 999999999 - int64(r.Intn(4000000)) // just below the next second
+	case 1:
+		ns = int64(r.Intn(256))*3906250 + int64(r.Intn(3906250))
+	default:
+		ns = int64(r.Intn(1000000000))
+	}
+	d := time.Duration(sec)*time.Second + time.Duration(ns)
+	mc := &lorawan.MACCommand{CID: lorawan.DeviceTimeAns, Payload: &lorawan.DeviceTimeAnsPayload{TimeSinceGPSEpoch: d}}
+	b, err := mc.MarshalBinary()
+	simrt.Count(cResolution)
+	if err != nil {
+		simrt.Report("r5.rejected-valid:DeviceTimeAns", fmt.Sprintf("in-range duration %v refused: %v", d, err))
+		return
+	}
+	var rx lorawan.MACCommand
+	if err := rx.UnmarshalBinary(false, b); err != nil {
+		simrt.Report("r5.undecodable:DeviceTimeAns", err.Error())
+		return
+	}
+	got := rx.Payload.(*lorawan.DeviceTimeAnsPayload).TimeSinceGPSEpoch
+	diff := got - d
+	if diff < 0 {
+		diff = -diff
+	}
+	if diff >= 3906250 {
+		simrt.Report("r5.lossy:DeviceTimeAns", fmt.Sprintf("duration %v (%d ns) encoded without error to %x but decodes to %v: off by %v, more than the 1/256 s wire resolution", d, int64(d), b, got, diff))
+	}
+}
+
 // losslessOrError is R5: encode either fails or round-trips; spec-valid
 // values must be accepted.
 func losslessOrError(r *sim.Rand, up bool) {
@@ -560,10 +615,19 @@ var regModel = porcupine.Model{
 }
 
 func check(h *history) {
+	// merge the operators' registrations in order of completion
+	for _, rs := range h.regsBy {
+		h.regs = append(h.regs, rs...)
+	}
+	for i := 1; i < len(h.regs); i++ {
+		for j := i; j > 0 && h.regs[j-1].ret > h.regs[j].ret; j-- {
+			h.regs[j-1], h.regs[j] = h.regs[j], h.regs[j-1]
+		}
+	}
 	// R1: linearizability of Register / GetMACPayloadAndSize
 	var ops []porcupine.Operation
 	for _, r := range h.regs {
-		ops = append(ops, porcupine.Operation{ClientId: 0, Input: regInput{0, r.up, r.cid, r.size}, Call: r.inv, Output: regOutput{err: r.err}, Return: r.ret})
+		ops = append(ops, porcupine.Operation{ClientId: 100 + r.by, Input: regInput{0, r.up, r.cid, r.size}, Call: r.inv, Output: regOutput{err: r.err}, Return: r.ret})
 	}
 	for _, gs := range h.gets {
 		for _, g := range gs {
